@@ -62,6 +62,8 @@ pub struct Stats {
     pub largest: Option<(usize, Value)>,
     pub known_hits: BTreeMap<String, u64>,
     pub history_len_hist: BTreeMap<usize, u64>,
+    /// cases in which the harness itself panicked (harness trouble, never a violation)
+    pub harness_panics: u64,
 }
 
 fn add_counters(a: &mut Counters, b: &Counters) {
@@ -101,6 +103,7 @@ impl Stats {
     }
     pub fn merge(&mut self, o: Stats) {
         self.evaluations += o.evaluations;
+        self.harness_panics += o.harness_panics;
         self.nontrivial += o.nontrivial;
         self.steps += o.steps;
         self.distinct.extend(o.distinct);
@@ -285,7 +288,14 @@ fn worker(prop: Prop, p: &Profile, seed: u64, wk: u64, cases: u64, deadline: Opt
             }
         }
         let tape = Tape { world, ops };
-        let r = eval_case(prop, p, &tape);
+        let r = match std::panic::catch_unwind(std::panic::AssertUnwindSafe(|| eval_case(prop, p, &tape))) {
+            Ok(r) => r,
+            Err(_) => {
+                // the harness fell over (already printed by the panic hook): not a verdict
+                stats.borrow_mut().harness_panics += 1;
+                return Ok(());
+            }
+        };
         let unk = unknown(&r, known);
         let shrinking = target.borrow().is_some();
         if !shrinking {
